@@ -5,14 +5,21 @@ import z3
 from .values import *
 from .extract import SourceIndex, ClassInfo, FunctionInfo
 from .interp import Engine, Interp, PyRaise, Env
-from .path import Explorer, Ctx, Infeasible, PathLimit
+from .path import Explorer, Ctx, Infeasible, PathLimit, PathEnd
+from .loops import LoopSpec, SpecFn
 from . import ops, solve
 
 VERIF = os.path.dirname(os.path.dirname(os.path.abspath(__file__)))
 
 
 def make_engine():
-    return Engine(SourceIndex())
+    global _INDEX
+    if _INDEX is None:
+        _INDEX = SourceIndex()
+    return Engine(_INDEX)
+
+
+_INDEX = None
 
 
 class Contract:
@@ -50,6 +57,10 @@ class Contract:
 
     def replay(self, values):
         return "no-replay"
+
+    def candidates(self):
+        """small native input domain (model values) searched when a counter-model does not replay"""
+        return iter(())
 
     def frame_ok(self, I, inp, obj, name):
         """may the function write attribute `name` of pre-existing object `obj`?  default: only self"""
@@ -160,6 +171,8 @@ def explore_contract(c, E=None, mutate=None):
                 return ("raise", exc_name(p.exc))
             except OutsideSubset as o:
                 return ("outside", str(o))
+            except PathEnd:
+                return ("loop-step", None)
             E.frame_hook = None
             try:
                 c.post(I, inp, r)
@@ -177,7 +190,7 @@ def explore_contract(c, E=None, mutate=None):
             if pr.outcome == "outside":
                 stats["outside"].append(f"{c.id}{case_tag} path {pi}: {pr.value}")
                 continue
-            stats["returns" if pr.outcome == "return" else "raises"] += 1
+            stats[{"return": "returns", "raise": "raises"}.get(pr.outcome, "loop_steps")] = stats.get({"return": "returns", "raise": "raises"}.get(pr.outcome, "loop_steps"), 0) + 1
             inp = getattr(pr.ctx, "inp", {})
             mt = c.model_terms(inp) if inp else {}
             for oi, ob in enumerate(pr.ctx.obligations):
